@@ -562,9 +562,12 @@ class HttpParser(abc.ABC, Generic[_MsgT]):
 
                     payload_state = PayloadState.PAYLOAD_COMPLETE
                     data = b""
-                    if isinstance(
-                        underlying_exc, (InvalidHeader, TransferEncodingError)
+                    if isinstance(underlying_exc, BadHttpMessage) and not isinstance(
+                        underlying_exc, ContentEncodingError
                     ):
+                        # The framing is broken (bad chunk size or trailer, a
+                        # limit exceeded): the position in the stream is lost,
+                        # nothing further can be parsed from this connection.
                         raise
 
                 self._payload_has_more_data = (
